@@ -876,6 +876,15 @@ func (s *Server) InjectPacket(cl *Client, pk packets.Packet) error {
 
 // processPublish processes a Publish packet.
 func (s *Server) processPublish(cl *Client, pk packets.Packet) error {
+	// Resolve the topic alias first, so that topic validation and the write
+	// permission check below apply to the topic the message is actually routed to.
+	if pk.Properties.TopicAliasFlag && pk.Properties.TopicAlias > 0 { // [MQTT-3.3.2-11]
+		pk.TopicName = cl.State.TopicAliases.Inbound.Set(pk.Properties.TopicAlias, pk.TopicName)
+		if pk.TopicName == "" {
+			return packets.ErrTopicAliasInvalid // the alias was never bound on this connection [MQTT-3.3.2-7]
+		}
+	}
+
 	if !cl.Net.Inline && !IsValidFilter(pk.TopicName, true) {
 		if pk.FixedHeader.Qos == 0 {
 			return nil
@@ -935,10 +944,6 @@ func (s *Server) processPublish(cl *Client, pk packets.Packet) error {
 				atomic.AddInt64(&s.Info.Inflight, -1)
 			}
 		}
-	}
-
-	if pk.Properties.TopicAliasFlag && pk.Properties.TopicAlias > 0 { // [MQTT-3.3.2-11]
-		pk.TopicName = cl.State.TopicAliases.Inbound.Set(pk.Properties.TopicAlias, pk.TopicName)
 	}
 
 	if pk.FixedHeader.Qos > s.Options.Capabilities.MaximumQos {
